@@ -115,6 +115,95 @@ fn trees(rep: &mut Report, tier: &Tier) {
     }
 }
 
+/// (4) adversarial peer blocks: at the C01 chain positions, for every (owner, slip kind) pair that
+/// holds an unspent in-window output, a block by a foreign creator in which the owner spends that
+/// output in two transactions (each balanced on its own). The control is the same block with one
+/// of the two. An accepted block is applied to the reference ledger and judged by the
+/// conservation oracle.
+fn adversarial(rep: &mut Report, tier: &Tier) {
+    use super::c01::{attacker_block, positions, Candidate};
+    let ps = match positions(tier) {
+        Ok(p) => p,
+        Err(e) => {
+            rep.machinery(format!("adversarial blocks: no positions: {}", e));
+            return;
+        }
+    };
+    let mut kinds_seen: BTreeSet<String> = BTreeSet::new();
+    for p in ps.iter() {
+        let w = &p.w;
+        let g = w.cfg.consensus.genesis_period;
+        let tip = p.tip;
+        let h = w.blocks[tip].id + 1;
+        let ts = w.blocks[tip].ts + 77;
+        for ki in 0..10u8 {
+            let owner = key(ki);
+            let mut by_kind: std::collections::BTreeMap<String, saito_core::core::consensus::slip::Slip> = Default::default();
+            for s in w.ledgers[tip].unspent_of(&owner.public) {
+                if s.amount > 2 && s.block_id + g >= h && s.slip_type != saito_core::core::consensus::slip::SlipType::Bound {
+                    by_kind.entry(format!("{:?}", s.slip_type)).or_insert(s);
+                }
+            }
+            for (kind, s) in by_kind {
+                kinds_seen.insert(kind.clone());
+                let tx1 = make_tx(&[s.clone()], &[(owner.public, s.amount)], &owner, ts, b"one");
+                let tx2 = make_tx(&[s.clone()], &[(owner.public, s.amount - 1), (key(2).public, 1)], &owner, ts + 1, b"two");
+                for pair in [false, true] {
+                    let c = Candidate { edit: String::new(), tx: tx1.clone(), tx2: if pair { Some(tx2.clone()) } else { None }, control: !pair };
+                    let ctx = json!({"position": p.name, "owner_key": ki, "slip_kind": kind, "pair": pair, "output": format!("{}-{}-{}", s.block_id, s.tx_ordinal, s.slip_index), "amount": s.amount});
+                    rep.evaluations += 1;
+                    let bytes = match attacker_block(w, tip, &c, false) {
+                        Ok(b) => b,
+                        Err(e) => {
+                            if !pair {
+                                rep.machinery(format!("adversarial control unproducible: {} {}", e, ctx));
+                            } else {
+                                rep.outcome("adversarial:pair-unproducible");
+                            }
+                            continue;
+                        }
+                    };
+                    let Ok(mut node) = w.node_at(tip, key(9)) else {
+                        rep.machinery(format!("adversarial: no node at {}", p.name));
+                        continue;
+                    };
+                    let before = node.tip().1;
+                    rep.transitions += 1;
+                    match node.add_block_bytes(&bytes) {
+                        Outcome::Done(_) => {}
+                        o => {
+                            rep.violate(if o.label().contains("total supply") { "supply-panic/adversarial-block" } else { "abort/adversarial-block" }, format!("{}: {}", ctx, o.label()), ctx.clone());
+                            continue;
+                        }
+                    }
+                    let accepted = node.tip().1 != before;
+                    if accepted {
+                        let mut l = w.ledgers[tip].clone();
+                        l.apply(&decode_block(&bytes));
+                        if let Err(e) = supply_check(&node, &l, w.initial_supply, g) {
+                            rep.violate(&format!("supply-mismatch/adversarial-block/{}", if pair { "same-output-spent-twice" } else { "single-spend" }), format!("{}: {}", ctx, e), ctx.clone());
+                            continue;
+                        }
+                    }
+                    match (pair, accepted) {
+                        (false, true) => rep.outcome(&format!("adversarial:single-spend-accepted:{}", kind)),
+                        (false, false) => rep.machinery(format!("adversarial control (single spend) refused: {}", ctx)),
+                        (true, false) => rep.outcome(&format!("adversarial:pair-refused:{}", kind)),
+                        (true, true) => rep.outcome(&format!("adversarial:pair-accepted-and-conserved:{}", kind)),
+                    }
+                    rep.distinct.insert(format!("adv|{}|{}|{}|{}", p.name, ki, kind, pair));
+                }
+            }
+        }
+    }
+    rep.extra.insert("adversarial_slip_kinds".into(), json!(kinds_seen.iter().collect::<Vec<_>>()));
+    for k in ["Normal", "ATR", "MinerOutput", "RouterOutput"] {
+        if !kinds_seen.contains(k) {
+            rep.machinery(format!("adversarial blocks: no unspent output of kind {} at any position", k));
+        }
+    }
+}
+
 pub fn main(tier: Tier, _replay: Option<String>) -> i32 {
     let mut rep = Report::new("C02", tier.clone(), "model_checking");
     rep.bounds = json!({"producer_histories": "the C07 script set (g=3, g=3+staking, g=4; 2g+4 rounds; <=1 (quick) / <=2 (thorough) deviations; exhaustive two-round prefixes)", "trees": "all shapes of n blocks over a 4-block stem at g=3, two delivery orders", "amount_sweep": "all output vectors of length <=3 over 8 boundary values"});
@@ -139,6 +228,7 @@ pub fn main(tier: Tier, _replay: Option<String>) -> i32 {
     rep.states = all.len() as u64;
     trees(&mut rep, &tier);
     sweep(&mut rep);
+    adversarial(&mut rep, &tier);
     rep.sample(json!({"script": format!("{:?}", ss[1].rounds), "g": ss[1].g}));
     rep.finish()
 }
